@@ -44,13 +44,13 @@ func (r recordDigest) Less(than llrb.Item) bool {
 	return bytes.Compare(r.digest, other.digest) < 0
 }
 
-func newRecordDigest(r Record) recordDigest {
+func newRecordDigest(r Record) (recordDigest, error) {
 	d, err := multihash.Decode(r.Hash())
 	if err != nil {
-		panic(err)
+		return recordDigest{}, err
 	}
 
-	return recordDigest{d.Digest, r}
+	return recordDigest{d.Digest, r}, nil
 }
 
 func newRecordFromCid(c cid.Cid, at uint64) recordDigest {
@@ -145,7 +145,11 @@ func (ii *InsertionIndex) Unmarshal(r io.Reader) error {
 		if err := d.Decode(&rec); err != nil {
 			return err
 		}
-		ii.items.InsertNoReplace(newRecordDigest(rec))
+		rd, err := newRecordDigest(rec)
+		if err != nil {
+			return fmt.Errorf("invalid entry: %v: %w", rec, err)
+		}
+		ii.items.InsertNoReplace(rd)
 	}
 	return nil
 }
@@ -176,7 +180,10 @@ func (ii *InsertionIndex) Codec() multicodec.Code {
 
 func (ii *InsertionIndex) Load(rs []Record) error {
 	for _, r := range rs {
-		rec := newRecordDigest(r)
+		rec, err := newRecordDigest(r)
+		if err != nil {
+			return fmt.Errorf("invalid entry: %v: %w", r, err)
+		}
 		if rec.digest == nil {
 			return fmt.Errorf("invalid entry: %v", r)
 		}
